@@ -14,10 +14,15 @@
   Object identity is the `oid`; "fresh" means `n` is above every object id in use, as the allocator guarantees.
   Python-level aliasing (weak references, pickle memo, protocols) is outside a value model: the oracle of the
   correspondence check covers it on the real objects.
+
+  Names are written `Pk.Attrs.…`, `Pk.styleToDict`, … : Lemmas/PickleEdit.lean brings the other attribute-store
+  models into scope (it reuses their string lemmas through the equalities of Props/AttrStores.lean), and an
+  enclosing-namespace name (`AHP.Attrs.…`) would win over the opened `AHP.Pk`.
 -/
 import AHP.Lemmas.Pickle
 import AHP.Lemmas.PickleStr
 import AHP.Lemmas.PickleIdx
+import AHP.Lemmas.PickleEdit
 namespace AHP.C17
 open AHP AHP.Pk
 
@@ -239,14 +244,14 @@ theorem indexed_parser_unpickle (p : Parser) (r : DN) (hr : p.root = some r) (h 
     it is childless (one empty text block, no children, empty text), detached (no parent, no owner), carries
     the fresh identities it was given and the rebuilt attribute store. -/
 theorem clone_eq (o u : Nat) (nm : Str) (a : Attrs) (sc : Bool) (blocks : List DN) (ch : List Nat) (tx : Str)
-    (p ow : Option Nat) (hn : lower nm = nm) (ha : Attrs.WF a) (oid' uid' : Nat) :
+    (p ow : Option Nat) (hn : lower nm = nm) (ha : Pk.Attrs.WF a) (oid' uid' : Nat) :
     clone oid' uid' (.el o u nm a sc blocks ch tx p ow) =
-      some (.el oid' uid' nm (Attrs.fresh a) (if !sc && voidTags.contains nm then true else sc) [.text []] [] [] none none) := by
-  simp only [clone, DN.mk, Attrs.init_attrsList a ha, hn]
+      some (.el oid' uid' nm (Pk.Attrs.fresh a) (if !sc && Pk.voidTags.contains nm then true else sc) [.text []] [] [] none none) := by
+  simp only [clone, DN.mk, Pk.Attrs.init_attrsList a ha, hn]
 
 /-- … unequal to the original under `==` exactly because its uid is fresh. -/
 theorem clone_not_eq (o u : Nat) (nm : Str) (a : Attrs) (sc : Bool) (blocks : List DN) (ch : List Nat) (tx : Str)
-    (p ow : Option Nat) (hn : lower nm = nm) (ha : Attrs.WF a) (oid' uid' : Nat) (hfresh : uid' ≠ u) (c : DN)
+    (p ow : Option Nat) (hn : lower nm = nm) (ha : Pk.Attrs.WF a) (oid' uid' : Nat) (hfresh : uid' ≠ u) (c : DN)
     (e : clone oid' uid' (.el o u nm a sc blocks ch tx p ow) = some c) :
     tagEq (.el o u nm a sc blocks ch tx p ow) c = false ∧ tagEq c (.el o u nm a sc blocks ch tx p ow) = false := by
   rw [clone_eq o u nm a sc blocks ch tx p ow hn ha] at e
@@ -257,23 +262,23 @@ theorem clone_not_eq (o u : Nat) (nm : Str) (a : Attrs) (sc : Bool) (blocks : Li
 /-- … tag-equal to its original in both directions (`isTagEqual`: same name, same attribute names, same value
     per name — whatever the position of `class`). -/
 theorem clone_tag_equal (o u : Nat) (nm : Str) (a : Attrs) (sc : Bool) (blocks : List DN) (ch : List Nat) (tx : Str)
-    (p ow : Option Nat) (hn : lower nm = nm) (ha : Attrs.WF a) (oid' uid' : Nat) (c : DN)
+    (p ow : Option Nat) (hn : lower nm = nm) (ha : Pk.Attrs.WF a) (oid' uid' : Nat) (c : DN)
     (e : clone oid' uid' (.el o u nm a sc blocks ch tx p ow) = some c) :
     isTagEqual (.el o u nm a sc blocks ch tx p ow) c = true ∧ isTagEqual c (.el o u nm a sc blocks ch tx p ow) = true := by
   rw [clone_eq o u nm a sc blocks ch tx p ow hn ha] at e
   cases e
   simp only [isTagEqual, Bool.and_eq_true, beq_self_eq_true, true_and, List.all_eq_true, List.contains_iff_mem,
-    Attrs.getForEq_fresh a ha, Attrs.GVal.eq_refl, implies_true, and_true]
+    Pk.Attrs.getForEq_fresh a ha, Pk.Attrs.GVal.eq_refl, implies_true, and_true]
   refine ⟨⟨fun k hk => ?_, fun k hk => ?_⟩, ⟨fun k hk => ?_, fun k hk => ?_⟩⟩
-  · exact (Attrs.mem_keys_handle_fresh a ha k).mpr hk
-  · exact (Attrs.mem_keys_handle_fresh a ha k).mp hk
-  · exact (Attrs.mem_keys_handle_fresh a ha k).mp hk
-  · exact (Attrs.mem_keys_handle_fresh a ha k).mpr hk
+  · exact (Pk.Attrs.mem_keys_handle_fresh a ha k).mpr hk
+  · exact (Pk.Attrs.mem_keys_handle_fresh a ha k).mp hk
+  · exact (Pk.Attrs.mem_keys_handle_fresh a ha k).mp hk
+  · exact (Pk.Attrs.mem_keys_handle_fresh a ha k).mpr hk
 
 /-- … and renders the same start tag (name and attributes) whenever the original's `class` is in its
     canonical last position — always, up to the order of attributes (`clone_tag_equal`). -/
-theorem clone_same_start_tag (nm : Str) (a : Attrs) (sc : Bool) (ha : Attrs.WF a) (hl : Attrs.ClassLast a) :
-    Attrs.startTag nm (Attrs.fresh a) sc = Attrs.startTag nm a sc := Attrs.startTag_fresh nm a sc ha hl
+theorem clone_same_start_tag (nm : Str) (a : Attrs) (sc : Bool) (ha : Pk.Attrs.WF a) (hl : Pk.Attrs.ClassLast a) :
+    Pk.Attrs.startTag nm (Pk.Attrs.fresh a) sc = Pk.Attrs.startTag nm a sc := Pk.Attrs.startTag_fresh nm a sc ha hl
 
 /-! ### the two string round trips, from a syntactic description of the stored data -/
 
@@ -285,16 +290,206 @@ theorem class_round_trip (cls : List Str) (h : ∀ t ∈ cls, Tok t) : classToke
     without white space at its ends; non-empty value without `;` and without white space at its ends) survive
     `_asStr` → `styleToDict` -/
 theorem style_round_trip (sty : List (Str × Str)) (h : ∀ q ∈ sty, PropOK q) (hn : (dkeys sty).Nodup) :
-    styleToDict (styleStr sty) = sty :=
+    Pk.styleToDict (Pk.styleStr sty) = sty :=
   styleToDict_styleStr sty h hn
 
 /-- hence `Attrs.WF` follows from purely syntactic conditions on the store -/
 theorem wf_of_syntactic (a : Attrs) (hn : (dkeys a.dict).Nodup)
-    (hnames : ∀ p ∈ a.dict, validAttrName p.1 = true ∧ lower p.1 = p.1)
+    (hnames : ∀ p ∈ a.dict, Pk.validAttrName p.1 = true ∧ lower p.1 = p.1)
     (hstyle : ∀ p ∈ a.dict, (p.1 = sStyle → p.2 = DVal.style) ∧ (p.1 ≠ sStyle → p.2 ≠ DVal.style))
     (hbool : ∀ p ∈ a.dict, boolStrAttrs.contains p.1 = true → p.1 ≠ sClass → ∃ s, p.2 = DVal.str s ∧ convBoolStr (some s) = s)
-    (hcls : ∀ t ∈ a.cls, Tok t) (hsty : ∀ q ∈ a.sty, PropOK q) (hsn : (dkeys a.sty).Nodup) : Attrs.WF a :=
+    (hcls : ∀ t ∈ a.cls, Tok t) (hsty : ∀ q ∈ a.sty, PropOK q) (hsn : (dkeys a.sty).Nodup) : Pk.Attrs.WF a :=
   ⟨hn, hnames, hstyle, hbool, class_round_trip a.cls hcls, style_round_trip a.sty hsty hsn⟩
+
+
+/-! ### the domain is closed under the edit operations: the theorems above apply after any history of edits
+
+  `Attrs.WF` was shown closed under unpickling and cloning only (`WF_fresh`).  It is closed under every mutator of
+  the model as well, with ONE operand condition: the token handed to `addClass` has no space inside and no white
+  space at its ends (`TokArg`; the model's `addClass` takes one token of `stripWordsOnly(…).split(' ')`).
+  `setAttribute` needs none: whatever text is assigned to `class` / `style` is stored as split / as parsed, and
+  both parsers are idempotent through the string form (`clsOK_classTokens`, `styleToDict_idem_pk`).
+
+  `ClassLast` (the position of `class` in the synchronised dict) is NOT closed under edits after a read — that is
+  the known finding `C17-repickle-class-position` (`classLast_needed`).  What is closed is `ClassLazy` (the raw
+  dict does not hold `class` yet, a non-empty style has its key): it holds of every store a constructor,
+  unpickling or cloning builds, every mutator keeps it, and it implies `ClassLast`.  `WFTz` is `WFT` with
+  `ClassLazy` in the place of `ClassLast`. -/
+
+/-- a mutator of the attribute store -/
+inductive AEdit where
+  | set (k : Str) (v : Option Str)      -- `_attributes[k] = v` (`setAttribute`, attribute loop of the constructor)
+  | del (k : Str)                       -- `del _attributes[k]` (`removeAttribute`)
+  | addClass (tok : Str)
+
+def AEdit.apply (a : Attrs) : AEdit → Attrs
+  | .set k v => match Pk.Attrs.setitem a k v with | some a' => a' | none => a
+  | .del k => Pk.Attrs.delitem a k
+  | .addClass tok => Pk.Attrs.addClass a tok
+
+/-- operand conditions: the key of a write is a valid attribute name (`setAttribute` raises `KeyError` on any
+    other name, the constructor drops it); the token of `addClass` has no space inside and no white space at
+    its ends -/
+def AEdit.OK : AEdit → Prop
+  | .set k _ => Pk.validAttrName (lower k) = true
+  | .del _ => True
+  | .addClass tok => Pk.Attrs.TokArg tok
+
+/-- **`Attrs.WF` is closed under every mutator** (and `ClassLazy` with it). -/
+theorem WF_edit (a : Attrs) (e : AEdit) (he : e.OK) (h : Pk.Attrs.WF a) : Pk.Attrs.WF (e.apply a) := by
+  cases e with
+  | set k v =>
+    obtain ⟨a', e'⟩ := Pk.Attrs.setitem_isSome a k v
+    simp only [AEdit.apply, e']
+    exact Pk.Attrs.WF_setitem a k v h he a' e'
+  | del k => exact Pk.Attrs.WF_delitem a k h
+  | addClass tok => exact Pk.Attrs.WF_addClass a tok h he
+
+theorem classLazy_edit (a : Attrs) (e : AEdit) (h : Pk.Attrs.ClassLazy a) : Pk.Attrs.ClassLazy (e.apply a) := by
+  cases e with
+  | set k v =>
+    obtain ⟨a', e'⟩ := Pk.Attrs.setitem_isSome a k v
+    simp only [AEdit.apply, e']
+    exact Pk.Attrs.classLazy_setitem a k v h a' e'
+  | del k => exact Pk.Attrs.classLazy_delitem a k h
+  | addClass tok => exact Pk.Attrs.classLazy_addClass a tok h
+
+/-- **after any history of mutators** the store is well formed; if `class` was still lazy at the start (as in
+    every constructed / unpickled / cloned store) it still is, so `class` is in its canonical last position and
+    the copy theorems (`clone_eq`, `clone_tag_equal`, `clone_same_start_tag`, `Attrs.init_attrsList`, …) apply. -/
+theorem WF_history (es : List AEdit) (he : ∀ e ∈ es, e.OK) : ∀ a : Attrs, Pk.Attrs.WF a →
+    Pk.Attrs.WF (es.foldl AEdit.apply a) ∧
+    (Pk.Attrs.ClassLazy a → Pk.Attrs.ClassLazy (es.foldl AEdit.apply a) ∧ Pk.Attrs.ClassLast (es.foldl AEdit.apply a)) := by
+  induction es with
+  | nil => intro a h; exact ⟨h, fun hl => ⟨hl, Pk.Attrs.classLast_of_lazy a hl⟩⟩
+  | cons e es ih =>
+    intro a h
+    have h1 := WF_edit a e (he e List.mem_cons_self) h
+    have := ih (fun x hx => he x (List.mem_cons_of_mem _ hx)) (e.apply a) h1
+    exact ⟨this.1, fun hl => this.2 (classLazy_edit a e hl)⟩
+
+/-- every store a constructor builds — from ANY attribute list — is in the closed domain -/
+theorem constructed_store_in_domain (l : List (Str × Option Str)) (a : Attrs) (e : Pk.Attrs.init l = some a) :
+    Pk.Attrs.WF a ∧ Pk.Attrs.ClassLazy a ∧ Pk.Attrs.ClassLast a :=
+  ⟨Pk.Attrs.WF_init l a e, Pk.Attrs.classLazy_init l a e, Pk.Attrs.classLast_of_lazy a (Pk.Attrs.classLazy_init l a e)⟩
+
+/-- the read (`items()/keys()/getAttributesList()`) keeps `WF` and the position of `class` — but ends the
+    laziness when the class list is non-empty (see `read_ends_laziness`) -/
+theorem WF_read (a : Attrs) (h : Pk.Attrs.WF a) (hl : Pk.Attrs.ClassLast a) :
+    Pk.Attrs.WF (Pk.Attrs.handle a) ∧ Pk.Attrs.ClassLast (Pk.Attrs.handle a) := by
+  refine ⟨Pk.Attrs.WF_handle a h, ?_⟩
+  unfold Pk.Attrs.ClassLast
+  rw [Pk.Attrs.handle_idem a h.nodup]
+  exact hl
+
+/-- **one edit of the model keeps a tree in the closed domain** — all six kinds (appendText, appendChild,
+    setAttribute, removeAttribute, addClass, removeChild), any target object. -/
+theorem WFT_edit (target oid uid : Nat) (e : Edit) (he : EditOK e) (d : DN) (h : WFTz d) :
+    WFTz (applyEdit target oid uid e d) := WFTz_applyEdit target oid uid e he d h
+
+/-- **after any history of edits** the tree is in the closed domain, hence `WFT`. -/
+theorem WFT_history (es : List (Nat × Nat × Nat × Edit)) (he : ∀ x ∈ es, EditOK x.2.2.2) (d : DN) (h : WFTz d) :
+    WFTz (applyHistory es d) ∧ WFT (applyHistory es d) :=
+  ⟨WFTz_applyHistory es he d h, WFT_of_WFTz _ (WFTz_applyHistory es he d h)⟩
+
+/-- what unpickling returns is in the closed domain again (not only `WFT`): histories may alternate edits and
+    pickling on either side -/
+theorem unpickle_in_closed_domain (ρ : Option Nat → Option Nat) (t : DN) (h : WFT t) (n : Nat) (t' : DN) (m : Nat)
+    (e : roundTrip ρ t n = some (t', m)) : WFTz t' := by
+  rw [unpickle_eq ρ t h n] at e
+  cases e
+  exact WFTz_relabel none _ t h n
+
+/-- every element a constructor builds (`AdvancedTag(name, attrList, isSelfClosing)`) is in the closed domain -/
+theorem constructed_in_domain (oid uid : Nat) (name : Str) (l : List (Str × Option Str)) (sc : Bool) (ow : Option Nat)
+    (c : DN) (e : DN.mk oid uid name l sc ow = some c) : WFTz c := WFTz_mk oid uid name l sc ow c e
+
+/-- **C17a/b after any history of edits.**  Start from a tree in the closed domain (constructed, parsed,
+    unpickled, cloned), apply any sequence of edits with admissible operands: pickling the result never raises and
+    yields a faithful copy — same serialisation, same uids, same per-element view, fresh objects — which is again
+    in the closed domain. -/
+theorem unpickle_after_history (ρ : Option Nat → Option Nat) (t : DN) (h : WFTz t)
+    (es : List (Nat × Nat × Nat × Edit)) (he : ∀ x ∈ es, EditOK x.2.2.2) (n : Nat) :
+    ∃ t', roundTrip ρ (applyHistory es t) n = some (t', n + DN.size (applyHistory es t)) ∧
+      DN.html t' = DN.html (applyHistory es t) ∧
+      DN.uids t' = DN.uids (applyHistory es t) ∧
+      (DN.elems t').map elView = (DN.elems (applyHistory es t)).map elView ∧
+      DN.oids t' = List.range' n (DN.size (applyHistory es t)) ∧
+      WFTz t' := by
+  have hw := (WFT_history es he t h).2
+  obtain ⟨t', e, h1, h2, h3, h4, _⟩ := unpickle_faithful ρ (applyHistory es t) hw n
+  exact ⟨t', e, h1, h2, h3, h4, unpickle_in_closed_domain ρ _ hw n t' _ e⟩
+
+/-- reads on the original (pickling calls `getAttributesList()` on every element) keep `WFT` -/
+theorem read_keeps_WFT (t : DN) (h : WFT t) : WFT (materialise t) := WFT_materialise t h
+
+/-! ### the two string round trips, exactly
+
+  `wf_of_syntactic` asked for `Tok` (no white space at all in a class token) and `PropOK` (non-empty name and
+  value).  Both are wider in the library; the exact shapes are `ClsOK` and `GoodDecl` + unique names. -/
+
+/-- class lists: the round trip holds **exactly** for lists of non-empty tokens without a space whose first token
+    does not start and whose last token does not end with white space (a tab inside a token, or at the inner ends,
+    is fine) -/
+theorem class_round_trip_iff (cls : List Str) : classTokens (className cls) = cls ↔ ClsOK cls := clsOK_iff cls
+
+/-- style maps: the round trip holds **exactly** for maps with unique names whose declarations are `GoodDecl`
+    (trimmed lower-case name without `:`/`;`, trimmed value without `;` — either may be EMPTY) -/
+theorem style_round_trip_iff (sty : List (Str × Str)) :
+    Pk.styleToDict (Pk.styleStr sty) = sty ↔ ((dkeys sty).Nodup ∧ ∀ q ∈ sty, Attrs.GoodDecl q) := by
+  constructor
+  · intro h; rw [← h]; exact goodDecl_styleToDict _
+  · intro h; exact styleToDict_styleStr_wide sty h.1 h.2
+
+/-- whatever is assigned, the stored data has the round-trip shape -/
+theorem stored_class_round_trips (v : Str) : classTokens (className (classTokens v)) = classTokens v :=
+  classTokens_idem v
+theorem stored_style_round_trips (s : Str) : Pk.styleToDict (Pk.styleStr (Pk.styleToDict s)) = Pk.styleToDict s :=
+  styleToDict_idem_pk s
+
+/-- **`Attrs.WF` from purely syntactic conditions, exact form** (widens `wf_of_syntactic`: empty style values and
+    names, white space other than the space inside class tokens) -/
+theorem wf_iff_syntactic (a : Attrs) : Pk.Attrs.WF a ↔
+    ((dkeys a.dict).Nodup ∧
+     (∀ p ∈ a.dict, Pk.validAttrName p.1 = true ∧ lower p.1 = p.1) ∧
+     (∀ p ∈ a.dict, (p.1 = sStyle → p.2 = DVal.style) ∧ (p.1 ≠ sStyle → p.2 ≠ DVal.style)) ∧
+     (∀ p ∈ a.dict, boolStrAttrs.contains p.1 = true → p.1 ≠ sClass → ∃ s, p.2 = DVal.str s ∧ convBoolStr (some s) = s) ∧
+     ClsOK a.cls ∧ (dkeys a.sty).Nodup ∧ ∀ q ∈ a.sty, Attrs.GoodDecl q) := by
+  constructor
+  · intro h
+    exact ⟨h.nodup, h.names, h.styleKey, h.boolStr, (class_round_trip_iff _).mp h.cls,
+      ((style_round_trip_iff _).mp h.sty).1, ((style_round_trip_iff _).mp h.sty).2⟩
+  · rintro ⟨h1, h2, h3, h4, h5, h6, h7⟩
+    exact ⟨h1, h2, h3, h4, (class_round_trip_iff _).mpr h5, (style_round_trip_iff _).mpr ⟨h6, h7⟩⟩
+
+/-- the earlier description is a special case -/
+theorem wf_of_syntactic_is_special (cls : List Str) (sty : List (Str × Str)) (hcls : ∀ t ∈ cls, Tok t)
+    (hsty : ∀ q ∈ sty, PropOK q) : ClsOK cls ∧ ∀ q ∈ sty, Attrs.GoodDecl q :=
+  ⟨clsOK_of_tok cls hcls, fun q hq => goodDecl_of_propOK q (hsty q hq)⟩
+
+/-! the newly covered stores: an empty style value, an empty style name, a tab inside / at the inner end of a token -/
+example : Pk.styleToDict (Pk.styleStr [(str "color", []), (str "width", str "5px")]) = [(str "color", []), (str "width", str "5px")] := by decide
+example : Pk.styleToDict (Pk.styleStr [([], str "red"), (str "b", [])]) = [([], str "red"), (str "b", [])] := by decide
+example : classTokens (className [str "a\tb", str "c\t", str "\td", str "e"]) = [str "a\tb", str "c\t", str "\td", str "e"] := by decide
+
+/-! … and every excluded store really breaks the round trip (so the copy differs from the original).  The library
+    can hold each of them:
+    * a token starting / ending with a tab at an END of the list: `tag.className = "a \tb"; tag.removeClass("a")`
+      leaves `['\tb']`, the pickled copy has `['b']` (`stripWordsOnly` splits at spaces, `strip` eats the tab);
+    * a token with a space or an empty token: only by writing `_classNames` directly (every public mutator splits);
+    * a style value with `;` or with white space at an end: `tag.style.background = "url(a;b)"`, `tag.style.color = " red"`
+      (the property setter stores the text verbatim; the copy goes through `styleToDict`);
+    * an upper-case / untrimmed / `:`-containing / repeated style name: only by writing `_styleDict` directly
+      (`setProperty` and attribute access lower-case and dash the name). -/
+example : classTokens (className [str "\tb"]) = [str "b"] := by decide
+example : classTokens (className [str "a", str "b\t"]) = [str "a", str "b"] := by decide
+example : classTokens (className [str "a b"]) = [str "a", str "b"] := by decide
+example : classTokens (className [[], str "a"]) = [str "a"] := by decide
+example : Pk.styleToDict (Pk.styleStr [(str "background", str "url(a;b)")]) = [(str "background", str "url(a")] := by decide
+example : Pk.styleToDict (Pk.styleStr [(str "color", str " red")]) = [(str "color", str "red")] := by decide
+example : Pk.styleToDict (Pk.styleStr [(str "Color", str "red")]) = [(str "color", str "red")] := by decide
+example : Pk.styleToDict (Pk.styleStr [(str "a:b", str "x")]) = [(str "a", str "b: x")] := by decide
+example : Pk.styleToDict (Pk.styleStr [(str "a", str "x"), (str "a", str "y")]) = [(str "a", str "y")] := by decide
 
 /-! ### non-vacuity and the boundary of the domain -/
 
@@ -303,20 +498,20 @@ def sample : DN :=
   .el 0 0 (str "div")
     ⟨[(str "id", .str (str "x")), (sStyle, .style)], [str "a", str "b"], [(str "color", str "red")]⟩ false
     [.text [], .text (str "t"),
-     .el 1 1 (str "br") Attrs.empty true [.text []] [] [] (some 0) none]
+     .el 1 1 (str "br") Pk.Attrs.empty true [.text []] [] [] (some 0) none]
     [1] (str "t") none none
 
 example : DN.html sample = str "<div id=\"x\" style=\"color: red\" class=\"a b\" >t<br /></div>" := by decide
 
 /-- the hypotheses of the theorems are satisfiable by a tree with class, style, text and a void child … -/
-theorem wf_empty : Attrs.WF Attrs.empty :=
-  ⟨by decide, by decide, by decide, fun p hp => by simp [Attrs.empty] at hp, by decide, by decide⟩
+theorem wf_empty : Pk.Attrs.WF Pk.Attrs.empty :=
+  ⟨by decide, by decide, by decide, fun p hp => by simp [Pk.Attrs.empty] at hp, by decide, by decide⟩
 
 theorem sample_wf : WFT sample := by
   unfold sample
   simp only [WFT, WFTL]
-  refine ⟨by decide, ⟨by decide, by decide, by decide, ?_, by decide, by decide⟩, by unfold Attrs.ClassLast; decide,
-    trivial, trivial, ⟨by decide, wf_empty, by unfold Attrs.ClassLast; decide, trivial, trivial⟩, trivial⟩
+  refine ⟨by decide, ⟨by decide, by decide, by decide, ?_, by decide, by decide⟩, by unfold Pk.Attrs.ClassLast; decide,
+    trivial, trivial, ⟨by decide, wf_empty, by unfold Pk.Attrs.ClassLast; decide, trivial, trivial⟩, trivial⟩
   intro p hp hb
   simp only [List.mem_cons, List.mem_nil_iff, or_false] at hp
   rcases hp with rfl | rfl <;> exact absurd hb (by decide)
@@ -325,16 +520,81 @@ theorem sample_wf : WFT sample := by
 example : (roundTrip id sample 2).map (fun r => (DN.html r.1, DN.oids r.1, DN.uids r.1, r.2)) =
     some (str "<div id=\"x\" style=\"color: red\" class=\"a b\" >t<br /></div>", [2, 3], [0, 1], 4) := by decide
 
+
+/-! #### non-vacuity of the closure theorems -/
+
+theorem sample_wfz : WFTz sample := by
+  unfold sample
+  simp only [WFTz, WFTzL]
+  refine ⟨by decide, (sample_wf_attrs), ⟨by decide, fun _ => by decide⟩, trivial, trivial,
+    ⟨by decide, wf_empty, Pk.Attrs.classLazy_empty, trivial, trivial⟩, trivial⟩
+where
+  sample_wf_attrs : Pk.Attrs.WF ⟨[(str "id", .str (str "x")), (sStyle, .style)], [str "a", str "b"], [(str "color", str "red")]⟩ := by
+    refine ⟨by decide, by decide, by decide, ?_, by decide, by decide⟩
+    intro p hp hb
+    simp only [List.mem_cons, List.mem_nil_iff, or_false] at hp
+    rcases hp with rfl | rfl <;> exact absurd hb (by decide)
+
+/-- a history touching every edit kind: a mixed-case new attribute, a class value with a tab and several spaces, a
+    style text with an empty value and a duplicate, `spellcheck`, a removed attribute, a new class token, a new
+    child, text, a removed child -/
+def sampleHistory : List (Nat × Nat × Nat × Edit) :=
+  [(0, 0, 0, .setAttribute (str "Title") (str "T")),
+   (0, 0, 0, .setAttribute (str "class") (str "  x\ty   z ")),
+   (1, 0, 0, .setAttribute (str "style") (str "color: ; W:1;color:blue")),
+   (1, 0, 0, .setAttribute (str "spellcheck") (str "Nope")),
+   (0, 0, 0, .removeAttribute (str "id")),
+   (0, 0, 0, .addClass (str "q")),
+   (0, 7, 7, .appendChild (str "P")),
+   (7, 0, 0, .appendText (str "tail")),
+   (0, 0, 0, .removeChild 0)]
+
+theorem sampleHistory_ok : ∀ x ∈ sampleHistory, EditOK x.2.2.2 := by
+  intro x hx
+  simp only [sampleHistory, List.mem_cons, List.mem_nil_iff, or_false] at hx
+  rcases hx with rfl | rfl | rfl | rfl | rfl | rfl | rfl | rfl | rfl <;> try trivial
+  exact Pk.Attrs.tokArg_of_tok _ ⟨by decide, by decide⟩
+
+example : DN.html (applyHistory sampleHistory sample)
+    = str "<div style=\"color: red\" title=\"T\" class=\"x\ty z q\" >t<p >tail</p></div>" := by decide
+
+/-- the edited document is still in the domain, and its pickled copy is the faithful one (computed: same text,
+    new objects) -/
+example : WFT (applyHistory sampleHistory sample) := (WFT_history _ sampleHistory_ok _ sample_wfz).2
+example : (roundTrip id (applyHistory sampleHistory sample) 10).map (fun r => (DN.html r.1, DN.oids r.1, DN.uids r.1, r.2)) =
+    some (str "<div style=\"color: red\" title=\"T\" class=\"x\ty z q\" >t<p >tail</p></div>", [10, 11], [0, 7], 12) := by decide
+
+/-- attribute level: a history on the sample's store -/
+example : Pk.Attrs.WF ([AEdit.set (str "STYLE") (some (str "a:;b: 2 ")), .addClass (str "n"), .del (str "id"), .set (str "x-y") none].foldl
+    AEdit.apply ⟨[(str "id", .str (str "x")), (sStyle, .style)], [str "a", str "b"], [(str "color", str "red")]⟩) :=
+  (WF_history _ (by
+    intro e he
+    simp only [List.mem_cons, List.mem_nil_iff, or_false] at he
+    rcases he with rfl | rfl | rfl | rfl
+    · show Pk.validAttrName (lower (str "STYLE")) = true; decide
+    · exact Pk.Attrs.tokArg_of_tok _ ⟨by decide, by decide⟩
+    · trivial
+    · show Pk.validAttrName (lower (str "x-y")) = true; decide) _ sample_wfz.sample_wf_attrs).1
+
+/-- the operand condition of `addClass` is needed: a token with a space is stored as given by the model's
+    one-token `addClass` and comes back as two -/
+example : classTokens (className (Pk.Attrs.addClass Pk.Attrs.empty (str "a b")).cls) ≠ (Pk.Attrs.addClass Pk.Attrs.empty (str "a b")).cls := by decide
+
+/-- a read ends the laziness (the raw dict now holds `class`): from here on a NEW attribute lands behind `class` —
+    the known finding `classLast_needed` -/
+theorem read_ends_laziness : ¬ Pk.Attrs.ClassLazy (Pk.Attrs.handle ⟨[], [str "a"], []⟩) := by
+  intro h; exact h.1 (by decide)
+
 /-- Why `ClassLast` is a hypothesis: a store in which an attribute was added after `class` had been
     synchronised (`class` then `title`) is rebuilt with `class` last — same mapping, different order. -/
 def lateAttr : Attrs := ⟨[(sClass, .str (str "a")), (str "title", .str (str "new"))], [str "a"], []⟩
 
 theorem classLast_needed :
-    Attrs.WF lateAttr ∧ ¬ Attrs.ClassLast lateAttr ∧
-    Attrs.startTag (str "div") lateAttr false = str "<div class=\"a\" title=\"new\" >" ∧
-    (Attrs.init (Attrs.attrsList lateAttr)).map (fun a => Attrs.startTag (str "div") a false)
+    Pk.Attrs.WF lateAttr ∧ ¬ Pk.Attrs.ClassLast lateAttr ∧
+    Pk.Attrs.startTag (str "div") lateAttr false = str "<div class=\"a\" title=\"new\" >" ∧
+    (Pk.Attrs.init (Pk.Attrs.attrsList lateAttr)).map (fun a => Pk.Attrs.startTag (str "div") a false)
       = some (str "<div title=\"new\" class=\"a\" >") := by
-  refine ⟨⟨by decide, by decide, by decide, ?_, by decide, by decide⟩, by unfold Attrs.ClassLast; decide, by decide, by decide⟩
+  refine ⟨⟨by decide, by decide, by decide, ?_, by decide, by decide⟩, by unfold Pk.Attrs.ClassLast; decide, by decide, by decide⟩
   intro p hp hb
   simp only [lateAttr, List.mem_cons, List.mem_nil_iff, or_false] at hp
   rcases hp with rfl | rfl <;> exact absurd hb (by decide)
